@@ -120,6 +120,13 @@ func opConc(args []string) string {
 			return "differ:sequential-user-pipeline:" + userSeq[g]
 		}
 	}
+	streamSeq := make([]string, n)
+	for g := 0; g < n; g++ {
+		streamSeq[g] = concStreamPipeline(g, func() {})
+		if strings.Contains(streamSeq[g], "=err") {
+			return "differ:sequential-stream-pipeline"
+		}
+	}
 	res := make([]string, n)
 	var wg sync.WaitGroup
 	for g := 0; g < n; g++ {
@@ -136,6 +143,10 @@ func opConc(args []string) string {
 				// scheduling point between the chunks
 				if got, want := concUserPipeline(cuInput(g), runtime.Gosched), userSeq[g]; got != want {
 					res[g] = fmt.Sprintf("differ:%d:user", g)
+					return
+				}
+				if got, want := concStreamPipeline(g, runtime.Gosched), streamSeq[g]; got != want {
+					res[g] = fmt.Sprintf("differ:%d:stream", g)
 					return
 				}
 				i := 0
